@@ -60,6 +60,20 @@ def main():
         def log_prior_unit_hypercube(self, x):
             return self.log_prior(self.from_unit_hypercube(x)) + np.log(64.0)
 
+    class Floor(G):
+        """a likelihood with a floor: every sample outside a disc has exactly the same value (ties in the ordering)"""
+
+        def log_likelihood(self, x):
+            return np.maximum(-0.5 * (x["x"] ** 2 + (x["y"] - 0.5) ** 2), -2.0)
+
+    class Cut(G):
+        """a likelihood that is exactly zero outside a disc (stored logL must be -inf there, and such samples tie)"""
+
+        def log_likelihood(self, x):
+            ll = -0.5 * (x["x"] ** 2 + (x["y"] - 0.5) ** 2)
+            with np.errstate(divide="ignore"):
+                return ll + np.log((x["x"] ** 2 + x["y"] ** 2 <= 6.25).astype(float))
+
     class NoCheck(G):
         """the constant density of the uniform prior, NOT -inf outside the bounds: nothing downstream hides a sample that
         left the unit hypercube (verify_model accepts such a prior)"""
@@ -67,7 +81,7 @@ def main():
         def log_prior(self, x):
             return np.zeros(x.size) - np.log(64.0)
 
-    model = {"uniform": G, "constrained": Constrained, "gaussprior": GaussPrior, "nocheck": NoCheck}[cfg.get("model", "uniform")]()
+    model = {"uniform": G, "constrained": Constrained, "gaussprior": GaussPrior, "nocheck": NoCheck, "floor": Floor, "cut": Cut}[cfg.get("model", "uniform")]()
     snaps = []
 
     def reeval(ns, s):
